@@ -13,6 +13,7 @@ def scen_check(module, level, rule, min_obs_quick=None, min_obs_thorough=None, c
                assumptions=None, exhaustive_thorough=False, exhaustive_quick=False, extra=None):
     """module: engine module name, or a list of (module, config) pairs whose results are merged."""
     mods = module if isinstance(module, list) else [(module, config)]
+    mods = [m if len(m) == 3 else (m[0], m[1], {}) for m in mods]
 
     def run(prop, tier, seed, t0, replay):
         import os
@@ -21,7 +22,9 @@ def scen_check(module, level, rule, min_obs_quick=None, min_obs_thorough=None, c
         total = None
         viols = []
         replay_doc = json.load(open(replay)) if replay else None
-        for mod, cfg in mods:
+        for mod, cfg, mopts in mods:
+            if mopts.get("tiers") and tier not in mopts["tiers"]:
+                continue
             scen = build.build_scen(cfg)
             os.environ["VERIF_SCEN_ND"] = scen
             replay_cases = None
@@ -29,7 +32,9 @@ def scen_check(module, level, rule, min_obs_quick=None, min_obs_thorough=None, c
                 replay_cases = [c for c in replay_doc["cases"]]
                 if replay_doc.get("module") and replay_doc["module"] != mod:
                     continue
-            t, v = core.run_engine(mod, prop, tier, seed, scen, vchild, replay_cases)
+            t, v = core.run_engine(mod, prop, tier, seed, scen, vchild, replay_cases, opts=mopts)
+            if mopts.get("prefix"):
+                t["obs"] = {("memcheck_" + k): val for k, val in t["obs"].items() if not isinstance(val, set)}
             for x in v:
                 x[3]["module"] = mod
             viols.extend(v)
@@ -230,11 +235,14 @@ CHECKS = {
         {"launches_checked": 1000, "args_compared": 5000, "env_entries_compared": 5000, "relative_programs": 300,
          "deep_cwd_cases": 100, "path_searches": 100}, assumptions=KERNEL_TRUST),
     "C14": scen_check(
-        [("eng_seq", "asan"), ("eng_seq", "asan-nd")], "exploration",
+        [("eng_seq", "asan"), ("eng_seq", "asan-nd"),
+         ("eng_seq", "plain", {"tiers": ["thorough"], "limit": 800,
+                               "prefix": ["valgrind", "-q", "--error-exitcode=99", "--num-callers=12"]})], "exploration",
         "random sequences of 1-40 calls over {new, start (valid / invalid options / missing program), pid, wait, terminate, "
         "kill, stop, read, write, close, poll, drain, sleep, destroy, destroy(NULL)} on 1-3 handles plus the NULL handle, with "
         "arbitrary parameters (bad stream numbers, NULL buffers, out-of-range stop actions), against children with scripted "
-        "output/close/read/exit events; run under ASan+UBSan with library asserts on and again with NDEBUG; the oracle is a "
+        "output/close/read/exit events; run under ASan+UBSan with library asserts on and again with NDEBUG (thorough: 800 "
+        "sequences once more under valgrind memcheck, which sees uninitialised reads ASan cannot); the oracle is a "
         "life-cycle state machine asserting only state-determined results; non-trivial = more than 3 ops checked",
         {"ops_checked": 50000, "state_op_pairs": 45, "einval_checks": 5000, "epipe_checks": 3000, "cached_status_checks": 500},
         assumptions=KERNEL_TRUST),
